@@ -2,6 +2,11 @@
 import json, sys, os
 here = os.path.dirname(os.path.dirname(os.path.abspath(__file__)))
 pid = sys.argv[1]; n = sys.argv[2] if len(sys.argv) > 2 else "a"
+HINTS = {
+ "a": "prefer a change in the main control path (ordering, guards, state updates).",
+ "n": "prefer a change OUTSIDE the function that most obviously implements the property: a helper two calls away, a sibling package it relies on (pkg/cache, pkg/store, pkg/sync, pkg/p2p, types, core/*, node wiring, configuration defaults), a constructor or option that sets up the state the property depends on, or the interaction of two functions that each stay correct alone. Changes that add a small feature or optimisation (a cache, a fast path, batching, a retry, a metric, a validation) and get one corner wrong are especially welcome.",
+ "o": "prefer a change that alters WHEN something happens rather than WHAT happens (an operation moved before/after another, done once instead of every time, done lazily, deferred, skipped when 'nothing changed', done in the background), or WHICH instance is used (a shared value instead of a fresh one, the wrong one of two similar fields/caches/keys, a stale copy).",
+}
 p = [json.loads(l) for l in open(os.path.join(here, "properties.jsonl")) if json.loads(l)["id"] == pid][0]
 wt = f"/tmp/seed_{pid}{n}"; out = f"/tmp/seed_out/{pid}{n}"
 print(f"""You are helping to test verification tooling for the Go repository at /repo (module github.com/evstack/ev-node: a sovereign-rollup node framework with a block manager, DA submission/retrieval, P2P sync, sequencers, store, config, signer). Your job: write ONE realistic code change (a plausible maintainer mistake: a refactoring slip, a dropped guard, a reordered pair of calls, an optimisation that is subtly wrong, a helper that is almost equivalent) that BREAKS the following property while the code still compiles and the existing test suite still passes.
@@ -18,6 +23,6 @@ Rules:
 5. Deliver into {out}/ (create it): patch.diff (output of `git diff` for the non-test source change ONLY, relative to HEAD, applying with `git apply` from the repo root), the demonstration test file (separately, not in patch.diff), and meta.json with keys: property ("{pid}"), summary (what the change does), needs (what specific circumstance is needed for the violation to manifest), files (changed files), demo (file name, package dir, and the exact `go test -run ...` command), observed (what you saw with and without the change), existing_tests (which test commands you ran with the change applied and that they passed).
 6. When finished, remove your worktree: `git -C /repo worktree remove --force {wt}`. Leave only {out}/.
 
-Variant hint: this is request "{n}" for this property; {"prefer a change in the main control path (ordering, guards, state updates)." if n=="a" else "prefer a change in a different area/clause of the property than the most obvious one (error paths, restart/recovery, boundary inputs, a helper or secondary component)."}
+Variant hint: this is request "{n}" for this property; {HINTS.get(n, "prefer a change in a different area/clause of the property than the most obvious one (error paths, restart/recovery, boundary inputs, a helper or secondary component).")}
 
 Reply with a short summary of the change and the demo result.""")
